@@ -3,7 +3,6 @@
 // not under contract: the CPCT+ driver functions (judged by the exhaustive minimal-repair oracle and the progress sweep when one changes)
 //@pin file=lrpar/src/lib/cpctplus.rs fn=recover sha=7bf51c7777e8b17b
 //@pin file=lrpar/src/lib/cpctplus.rs fn=collect_repairs sha=73788e2b2b7029c3
-//@pin file=lrpar/src/lib/cpctplus.rs fn=traverse sha=0d5160c70276965f
 //@pin file=lrpar/src/lib/cpctplus.rs fn=simplify_repairs sha=98007886e15ef655
 //@pin file=lrpar/src/lib/cpctplus.rs fn=recoverer sha=be65bf0498c91a62
 // Parser::lr is under contract for C07/C04 (unit c07_lr); for C05/C06 (which sequence is applied, what is reported) it is pinned
